@@ -3105,4 +3105,910 @@ theorem mapiternext_yields_live {o : Ops K} {h : HMap K V} (hw : WF o h) (hold :
   rw [hic.cb] at e
   exact iterLoop_yields_live hw hold _ it _ _ _ it' hic hic.bptr e
 
+/-! ## a complete walk over a table that does not change -/
+
+/-- what the scan of one bucket yields from scan position `8 - d` on (offset `r`) -/
+def byf (r : Nat) (cells : List (Cell K V)) : Nat → AList K V
+  | 0 => []
+  | d + 1 => (match cells[((8 - (d + 1)) + r) % 8]? with
+      | some c => chainAbs [c]
+      | none => []) ++ byf r cells d
+
+/-- bucket number `p` of a chain -/
+def blockOf (c : List (Cell K V)) (p : Nat) : List (Cell K V) := (c.drop (p * 8)).take 8
+
+/-- what the chain walk yields from bucket `p` on, `m` buckets -/
+def cy (r : Nat) (c : List (Cell K V)) : Nat → Nat → AList K V
+  | 0, _ => []
+  | m + 1, p => byf r (blockOf c p) 8 ++ cy r c m (p + 1)
+
+def chainYield (r : Nat) (c : List (Cell K V)) : AList K V := cy r c (c.length / 8) 0
+
+omit [Inhabited K] [Inhabited V] in
+theorem chainAbs_cons' (x : Cell K V) (l : List (Cell K V)) : chainAbs (x :: l) = chainAbs [x] ++ chainAbs l := by
+  rw [← chainAbs_append]; rfl
+
+omit [Inhabited K] [Inhabited V] in
+/-- one bucket: the rotated scan yields the bucket's entries -/
+theorem byf_perm {r : Nat} (hr : r < 8) {cells : List (Cell K V)} (hl : cells.length = 8) :
+    (byf r cells 8).Perm (chainAbs cells) := by
+  match cells, hl with
+  | [c0, c1, c2, c3, c4, c5, c6, c7], _ =>
+    have e : chainAbs [c0, c1, c2, c3, c4, c5, c6, c7] =
+        chainAbs [c0] ++ (chainAbs [c1] ++ (chainAbs [c2] ++ (chainAbs [c3] ++ (chainAbs [c4] ++
+          (chainAbs [c5] ++ (chainAbs [c6] ++ chainAbs [c7])))))) := by
+      rw [chainAbs_cons' c0 [c1, c2, c3, c4, c5, c6, c7], chainAbs_cons' c1 [c2, c3, c4, c5, c6, c7],
+        chainAbs_cons' c2 [c3, c4, c5, c6, c7], chainAbs_cons' c3 [c4, c5, c6, c7], chainAbs_cons' c4 [c5, c6, c7],
+        chainAbs_cons' c5 [c6, c7], chainAbs_cons' c6 [c7]]
+    rw [e]
+    match r, hr with
+    | 0, _ =>
+      have hb : byf 0 [c0, c1, c2, c3, c4, c5, c6, c7] 8 = (chainAbs [c0] ++ (chainAbs [c1] ++ (chainAbs [c2] ++ (chainAbs [c3] ++ (chainAbs [c4] ++ (chainAbs [c5] ++ (chainAbs [c6] ++ (chainAbs [c7] ++ ([]))))))))) := rfl
+      rw [hb]
+      simp only [List.append_nil]
+      exact List.Perm.refl _
+    | 1, _ =>
+      have hb : byf 1 [c0, c1, c2, c3, c4, c5, c6, c7] 8 = (chainAbs [c1] ++ (chainAbs [c2] ++ (chainAbs [c3] ++ (chainAbs [c4] ++ (chainAbs [c5] ++ (chainAbs [c6] ++ (chainAbs [c7] ++ (chainAbs [c0] ++ ([]))))))))) := rfl
+      rw [hb]
+      have := List.perm_append_comm (l₁ := chainAbs [c1] ++ (chainAbs [c2] ++ (chainAbs [c3] ++ (chainAbs [c4] ++ (chainAbs [c5] ++ (chainAbs [c6] ++ (chainAbs [c7]))))))) (l₂ := chainAbs [c0])
+      simpa only [List.append_assoc, List.append_nil] using this
+    | 2, _ =>
+      have hb : byf 2 [c0, c1, c2, c3, c4, c5, c6, c7] 8 = (chainAbs [c2] ++ (chainAbs [c3] ++ (chainAbs [c4] ++ (chainAbs [c5] ++ (chainAbs [c6] ++ (chainAbs [c7] ++ (chainAbs [c0] ++ (chainAbs [c1] ++ ([]))))))))) := rfl
+      rw [hb]
+      have := List.perm_append_comm (l₁ := chainAbs [c2] ++ (chainAbs [c3] ++ (chainAbs [c4] ++ (chainAbs [c5] ++ (chainAbs [c6] ++ (chainAbs [c7])))))) (l₂ := chainAbs [c0] ++ (chainAbs [c1]))
+      simpa only [List.append_assoc, List.append_nil] using this
+    | 3, _ =>
+      have hb : byf 3 [c0, c1, c2, c3, c4, c5, c6, c7] 8 = (chainAbs [c3] ++ (chainAbs [c4] ++ (chainAbs [c5] ++ (chainAbs [c6] ++ (chainAbs [c7] ++ (chainAbs [c0] ++ (chainAbs [c1] ++ (chainAbs [c2] ++ ([]))))))))) := rfl
+      rw [hb]
+      have := List.perm_append_comm (l₁ := chainAbs [c3] ++ (chainAbs [c4] ++ (chainAbs [c5] ++ (chainAbs [c6] ++ (chainAbs [c7]))))) (l₂ := chainAbs [c0] ++ (chainAbs [c1] ++ (chainAbs [c2])))
+      simpa only [List.append_assoc, List.append_nil] using this
+    | 4, _ =>
+      have hb : byf 4 [c0, c1, c2, c3, c4, c5, c6, c7] 8 = (chainAbs [c4] ++ (chainAbs [c5] ++ (chainAbs [c6] ++ (chainAbs [c7] ++ (chainAbs [c0] ++ (chainAbs [c1] ++ (chainAbs [c2] ++ (chainAbs [c3] ++ ([]))))))))) := rfl
+      rw [hb]
+      have := List.perm_append_comm (l₁ := chainAbs [c4] ++ (chainAbs [c5] ++ (chainAbs [c6] ++ (chainAbs [c7])))) (l₂ := chainAbs [c0] ++ (chainAbs [c1] ++ (chainAbs [c2] ++ (chainAbs [c3]))))
+      simpa only [List.append_assoc, List.append_nil] using this
+    | 5, _ =>
+      have hb : byf 5 [c0, c1, c2, c3, c4, c5, c6, c7] 8 = (chainAbs [c5] ++ (chainAbs [c6] ++ (chainAbs [c7] ++ (chainAbs [c0] ++ (chainAbs [c1] ++ (chainAbs [c2] ++ (chainAbs [c3] ++ (chainAbs [c4] ++ ([]))))))))) := rfl
+      rw [hb]
+      have := List.perm_append_comm (l₁ := chainAbs [c5] ++ (chainAbs [c6] ++ (chainAbs [c7]))) (l₂ := chainAbs [c0] ++ (chainAbs [c1] ++ (chainAbs [c2] ++ (chainAbs [c3] ++ (chainAbs [c4])))))
+      simpa only [List.append_assoc, List.append_nil] using this
+    | 6, _ =>
+      have hb : byf 6 [c0, c1, c2, c3, c4, c5, c6, c7] 8 = (chainAbs [c6] ++ (chainAbs [c7] ++ (chainAbs [c0] ++ (chainAbs [c1] ++ (chainAbs [c2] ++ (chainAbs [c3] ++ (chainAbs [c4] ++ (chainAbs [c5] ++ ([]))))))))) := rfl
+      rw [hb]
+      have := List.perm_append_comm (l₁ := chainAbs [c6] ++ (chainAbs [c7])) (l₂ := chainAbs [c0] ++ (chainAbs [c1] ++ (chainAbs [c2] ++ (chainAbs [c3] ++ (chainAbs [c4] ++ (chainAbs [c5]))))))
+      simpa only [List.append_assoc, List.append_nil] using this
+    | 7, _ =>
+      have hb : byf 7 [c0, c1, c2, c3, c4, c5, c6, c7] 8 = (chainAbs [c7] ++ (chainAbs [c0] ++ (chainAbs [c1] ++ (chainAbs [c2] ++ (chainAbs [c3] ++ (chainAbs [c4] ++ (chainAbs [c5] ++ (chainAbs [c6] ++ ([]))))))))) := rfl
+      rw [hb]
+      have := List.perm_append_comm (l₁ := chainAbs [c7]) (l₂ := chainAbs [c0] ++ (chainAbs [c1] ++ (chainAbs [c2] ++ (chainAbs [c3] ++ (chainAbs [c4] ++ (chainAbs [c5] ++ (chainAbs [c6])))))))
+      simpa only [List.append_assoc, List.append_nil] using this
+
+
+omit [Inhabited K] [Inhabited V] in
+theorem blockOf_length {c : List (Cell K V)} {p : Nat} (h : (p + 1) * 8 ≤ c.length) : (blockOf c p).length = 8 := by
+  simp [blockOf]; omega
+
+omit [Inhabited K] [Inhabited V] in
+/-- the chain walk from bucket `p` yields the entries of the chain from that bucket on -/
+theorem cy_perm {r : Nat} (hr : r < 8) (c : List (Cell K V)) : ∀ (m p : Nat), (p + m) * 8 = c.length →
+    (cy r c m p).Perm (chainAbs (c.drop (p * 8))) := by
+  intro m
+  induction m with
+  | zero =>
+    intro p h
+    have : c.drop (p * 8) = [] := List.drop_eq_nil_of_le (by omega)
+    rw [this]; exact List.Perm.refl _
+  | succ m ih =>
+    intro p h
+    have hb : (blockOf c p).length = 8 := blockOf_length (by omega)
+    have hsplit : c.drop (p * 8) = blockOf c p ++ c.drop ((p + 1) * 8) := by
+      unfold blockOf
+      have : c.drop ((p + 1) * 8) = (c.drop (p * 8)).drop 8 := by
+        rw [List.drop_drop]; congr 1; omega
+      rw [this]
+      exact (List.take_append_drop 8 (c.drop (p * 8))).symm
+    rw [cy, hsplit, chainAbs_append]
+    exact List.Perm.append (byf_perm hr hb) (ih (p + 1) (by omega))
+
+omit [Inhabited K] [Inhabited V] in
+theorem chainYield_perm {r : Nat} (hr : r < 8) {c : List (Cell K V)} (hl : c.length % 8 = 0) :
+    (chainYield r c).Perm (chainAbs c) := by
+  have := cy_perm hr c (c.length / 8) 0 (by omega)
+  simpa [chainYield] using this
+
+
+
+/-- the scan loop of `mapiternext` over a bucket of the current array, in terms of `byf` -/
+theorem iterScan_byf {o : Ops K} {h : HMap K V} {it : Iter K V} {cells : List (Cell K V)} (hN : NoMarks cells)
+    (hl : cells.length = 8) : ∀ (n d : Nat), d ≤ 8 → d ≤ n →
+    (∃ k v d', d' < d ∧ iterScan o h it cells none n (8 - d) = .ok (.yield k v (8 - d')) ∧
+      byf it.offset cells d = (k, v) :: byf it.offset cells d') ∨
+    (iterScan o h it cells none n (8 - d) = .ok .done ∧ byf it.offset cells d = []) := by
+  intro n
+  induction n with
+  | zero =>
+    intro d _ hd
+    have : d = 0 := by omega
+    subst this
+    right; exact ⟨rfl, rfl⟩
+  | succ n ih =>
+    intro d hd8 hdn
+    cases d with
+    | zero =>
+      right
+      refine ⟨?_, rfl⟩
+      rw [iterScan]
+      simp [bucketCnt, pure, Except.pure]
+    | succ d0 =>
+      rw [iterScan]
+      have hi : ¬ (8 - (d0 + 1) ≥ bucketCnt) := by simp [bucketCnt]; omega
+      simp only [hi, if_false]
+      have hidx : (8 - (d0 + 1) + it.offset) % bucketCnt < cells.length := by
+        rw [hl]; exact Nat.mod_lt _ (by simp [bucketCnt])
+      have hget : cells[(8 - (d0 + 1) + it.offset) % bucketCnt]? =
+          some cells[(8 - (d0 + 1) + it.offset) % bucketCnt] := List.getElem?_eq_getElem hidx
+      generalize hcdef : cells[(8 - (d0 + 1) + it.offset) % bucketCnt] = c at hget
+      have hmem : c ∈ cells := List.mem_of_getElem? hget
+      have hnext : 8 - (d0 + 1) + 1 = 8 - d0 := by omega
+      have hbyf : byf it.offset cells (d0 + 1) = chainAbs [c] ++ byf it.offset cells d0 := by
+        have : (8 - (d0 + 1) + it.offset) % 8 = (8 - (d0 + 1) + it.offset) % bucketCnt := rfl
+        simp only [byf, this, hget]
+      simp only [hget]
+      by_cases hemp : (isEmptyTop c.top || c.top == evacuatedEmpty) = true
+      · simp only [hemp, if_true, hnext]
+        have hdead : c.live = false := by
+          simp only [Bool.or_eq_true, beq_iff_eq] at hemp
+          rcases hemp with e | e
+          · exact dead_of_isEmpty e
+          · simp [Cell.live, e, evacuatedEmpty]
+        have hb2 : byf it.offset cells (d0 + 1) = byf it.offset cells d0 := by
+          rw [hbyf, chainAbs_cons_dead hdead]; rfl
+        rcases ih d0 (by omega) (by omega) with ⟨k, v, d', hd', e1, e2⟩ | ⟨e1, e2⟩
+        · left; exact ⟨k, v, d', by omega, e1, by rw [hb2]; exact e2⟩
+        · right; exact ⟨e1, by rw [hb2]; exact e2⟩
+      · simp only [hemp, Bool.false_eq_true, if_false]
+        have hlive : c.live = true := by
+          simp only [Bool.or_eq_true, beq_iff_eq, not_or] at hemp
+          rcases hN c hmem with h1 | h1
+          · exfalso
+            apply hemp.1
+            simp only [isEmptyTop, emptyOne, decide_eq_true_eq, UInt8.le_iff_toNat_le]
+            have : (1 : UInt8).toNat = 1 := rfl
+            omega
+          · exact live_iff.2 h1
+        have h5 := live_iff.1 hlive
+        have hx : (c.top != evacuatedX) = true := by
+          simp only [bne_iff_ne, ne_eq]; intro e'; rw [e'] at h5; simp [evacuatedX] at h5
+        have hy : (c.top != evacuatedY) = true := by
+          simp only [bne_iff_ne, ne_eq]; intro e'; rw [e'] at h5; simp [evacuatedY] at h5
+        left
+        refine ⟨c.key, c.val, d0, by omega, ?_, ?_⟩
+        · simp only [hx, hy, Bool.and_self, Bool.true_or, if_true, Bool.false_eq_true, if_false, pure, Except.pure, hnext]
+        · rw [hbyf, chainAbs_cons_live hlive]; rfl
+
+
+/-- the chains still to be walked: `bucket` is the next chain, `wrapped` says whether the walk passed the end -/
+def restChains (L : List (Chain K V)) (start bucket : Nat) (wrapped : Bool) : List (Chain K V) :=
+  if wrapped then (L.take start).drop bucket else L.drop bucket ++ L.take start
+
+def costs (l : List (Chain K V)) : Nat := (l.map (fun c => c.length / 8 + 1)).sum
+
+/-- everything the rest of the loop yields, from the local state of `mapiternext` -/
+def remOf (h : HMap K V) (r start : Nat) (wrapped : Bool) (bucket : Nat) (b : Option BRef) (i : Nat) : AList K V :=
+  (match b with
+    | none => []
+    | some br =>
+      byf r (blockOf (h.buckets.getD br.idx []) br.pos) (8 - i) ++
+        cy r (h.buckets.getD br.idx []) ((h.buckets.getD br.idx []).length / 8 - br.pos - 1) (br.pos + 1)) ++
+  (restChains h.buckets.toList start bucket wrapped).flatMap (chainYield r)
+
+/-- a bound on the number of `next:` rounds still needed -/
+def stepsOf (h : HMap K V) (start : Nat) (wrapped : Bool) (bucket : Nat) (b : Option BRef) : Nat :=
+  (match b with
+    | none => 0
+    | some br => (h.buckets.getD br.idx []).length / 8 - br.pos) + 1 +
+  costs (restChains h.buckets.toList start bucket wrapped)
+
+/-- the local state of `mapiternext` is consistent with a table that is not growing -/
+structure PosOK (h : HMap K V) (it : Iter K V) (bucket : Nat) (b : Option BRef) (i : Nat) : Prop where
+  B : it.B = h.B
+  gen : it.gen = h.gen
+  start : it.startBucket < h.buckets.size
+  off : it.offset < 8
+  bkt : bucket < h.buckets.size
+  wr : it.wrapped = true → bucket ≤ it.startBucket
+  bref : ∀ br, b = some br → br.gen = h.gen ∧ br.idx < h.buckets.size ∧ br.pos < (h.buckets.getD br.idx []).length / 8
+  i : i ≤ 8
+
+omit [Inhabited K] [Inhabited V] in
+theorem restChains_end (L : List (Chain K V)) (start : Nat) (hs : start ≤ L.length) :
+    restChains L start start true = [] := by
+  simp only [restChains, if_true]
+  apply List.drop_eq_nil_of_le
+  simp [List.length_take]; omega
+
+omit [Inhabited K] [Inhabited V] in
+/-- entering chain `bucket` -/
+theorem restChains_step (L : List (Chain K V)) {start bucket : Nat} {wrapped : Bool} (hs : start < L.length)
+    (hb : bucket < L.length) (hw : wrapped = true → bucket ≤ start) (hne : ¬ (bucket = start ∧ wrapped = true)) :
+    restChains L start bucket wrapped =
+      L[bucket] :: restChains L start (if bucket + 1 = L.length then 0 else bucket + 1)
+        (if bucket + 1 = L.length then true else wrapped) := by
+  cases wrapped with
+  | true =>
+    have hlt : bucket < start := by
+      have := hw rfl
+      rcases Nat.lt_or_eq_of_le this with h | h
+      · exact h
+      · exact absurd ⟨h, rfl⟩ hne
+    have hn : ¬ (bucket + 1 = L.length) := by omega
+    simp only [restChains, if_true, hn, if_false]
+    have hbt : bucket < (L.take start).length := by simp [List.length_take]; omega
+    rw [List.drop_eq_getElem_cons hbt]
+    simp
+  | false =>
+    by_cases hn : bucket + 1 = L.length
+    · simp only [restChains, hn, if_true, Bool.false_eq_true, if_false]
+      rw [List.drop_eq_getElem_cons hb, hn]
+      have : L.drop L.length = [] := List.drop_eq_nil_of_le (Nat.le_refl _)
+      rw [this]
+      simp
+    · simp only [restChains, hn, if_false, Bool.false_eq_true]
+      rw [List.drop_eq_getElem_cons hb]
+      rfl
+
+
+theorem bucketAt_pos {o : Ops K} {h : HMap K V} (hw : WF o h) {br : BRef} (hg : br.gen = h.gen)
+    (hi : br.idx < h.buckets.size) (hp : br.pos < (h.buckets.getD br.idx []).length / 8) :
+    h.bucketAt br = some (blockOf (h.buckets.getD br.idx []) br.pos,
+        decide ((h.buckets.getD br.idx []).length > (br.pos + 1) * bucketCnt)) ∧
+      NoMarks (blockOf (h.buckets.getD br.idx []) br.pos) ∧
+      (blockOf (h.buckets.getD br.idx []) br.pos).length = 8 := by
+  have hlen : (blockOf (h.buckets.getD br.idx []) br.pos).length = 8 := blockOf_length (by omega)
+  refine ⟨?_, ?_, hlen⟩
+  · unfold HMap.bucketAt HMap.arrayOf
+    simp only [hg, beq_self_eq_true, if_true]
+    have : ((List.take bucketCnt (List.drop (br.pos * bucketCnt) (h.buckets.getD br.idx []))).length == bucketCnt) = true := by
+      have := hlen
+      unfold blockOf at this
+      simp only [bucketCnt, this, beq_self_eq_true]
+    simp only [this, if_true]
+    rfl
+  · intro c hc
+    rw [getD_eq hi] at hc
+    exact (hw.newOK _ hi).1 c (List.mem_of_mem_drop (List.mem_of_mem_take hc))
+
+theorem cy_succ (r : Nat) (c : List (Cell K V)) (m p : Nat) :
+    cy r c (m + 1) p = byf r (blockOf c p) 8 ++ cy r c m (p + 1) := rfl
+
+/-- **one call of `mapiternext`** on a table that is not growing: it either ends the loop (nothing was left) or
+    yields the first of the remaining entries and leaves the rest -/
+theorem iterLoop_walk {o : Ops K} {h : HMap K V} (hw : WF o h) (hold : h.old = none) :
+    ∀ (fuel : Nat) (it : Iter K V) (bucket : Nat) (b : Option BRef) (i : Nat),
+      PosOK h it bucket b i → stepsOf h it.startBucket it.wrapped bucket b ≤ fuel →
+      ∃ it', iterLoop o h fuel it bucket b i none = .ok it' ∧
+        ((it'.key = none ∧ remOf h it.offset it.startBucket it.wrapped bucket b i = []) ∨
+         (∃ k v, it'.key = some k ∧ it'.elem = some v ∧ it'.checkBucket = none ∧
+            it'.startBucket = it.startBucket ∧ it'.offset = it.offset ∧
+            PosOK h it' it'.bucket it'.bptr it'.i ∧
+            remOf h it.offset it.startBucket it.wrapped bucket b i =
+              (k, v) :: remOf h it.offset it.startBucket it'.wrapped it'.bucket it'.bptr it'.i ∧
+            stepsOf h it.startBucket it'.wrapped it'.bucket it'.bptr ≤
+              stepsOf h it.startBucket it.wrapped bucket b)) := by
+  have hsize : h.buckets.toList.length = h.buckets.size := by simp
+  have hgrow : h.growing = false := by simp [HMap.growing, hold]
+  intro fuel
+  induction fuel with
+  | zero =>
+    intro it bucket b i _ hs
+    unfold stepsOf at hs
+    omega
+  | succ fuel ih =>
+    intro it bucket b i hp hs
+    unfold iterLoop
+    cases b with
+    | none =>
+      simp only
+      by_cases hend : (bucket == it.startBucket && it.wrapped) = true
+      · -- end of iteration
+        simp only [hend, if_true, pure, Except.pure]
+        refine ⟨_, rfl, Or.inl ⟨rfl, ?_⟩⟩
+        simp only [Bool.and_eq_true, beq_iff_eq] at hend
+        unfold remOf
+        rw [hend.1, hend.2, restChains_end _ _ (by rw [hsize]; exact Nat.le_of_lt hp.start)]
+        rfl
+      · simp only [hend, Bool.false_eq_true, if_false, hgrow, Bool.false_and]
+        have hne : ¬ (bucket = it.startBucket ∧ it.wrapped = true) := by
+          simpa [Bool.and_eq_true] using hend
+        have hstep := restChains_step h.buckets.toList (start := it.startBucket) (bucket := bucket)
+          (wrapped := it.wrapped) (by rw [hsize]; exact hp.start) (by rw [hsize]; exact hp.bkt) hp.wr hne
+        have hLb : h.buckets.toList[bucket]'(by rw [hsize]; exact hp.bkt) = h.buckets.getD bucket [] := by
+          rw [getD_eq hp.bkt]; simp
+        have hl8 := (hw.newOK bucket hp.bkt).2.2.2.2
+        rw [← getD_eq hp.bkt] at hl8
+        have hlen8 : 1 ≤ (h.buckets.getD bucket []).length / 8 := by
+          have h1 := hl8.1
+          have h2 := hl8.2
+          have : (h.buckets.getD bucket []).length ≠ 0 := fun e => h1 (List.eq_nil_of_length_eq_zero e)
+          omega
+        have h2B : 2 ^ it.B = h.buckets.size := by rw [hp.B, hw.size]
+        simp only [hsize] at hstep
+        -- the state after entering the chain
+        obtain ⟨it1, hit1, hw1, hst1, hoff1, hB1, hg1⟩ : ∃ it1 : Iter K V,
+            it1 = (if (bucket + 1 == 2 ^ it.B) = true then { it with wrapped := true } else it) ∧
+            it1.wrapped = (if bucket + 1 = h.buckets.size then true else it.wrapped) ∧
+            it1.startBucket = it.startBucket ∧ it1.offset = it.offset ∧ it1.B = it.B ∧ it1.gen = it.gen := by
+          refine ⟨_, rfl, ?_, ?_, ?_, ?_, ?_⟩
+          · rw [h2B]
+            by_cases hc : bucket + 1 = h.buckets.size
+            · simp only [hc, beq_self_eq_true, if_true]
+            · have : (bucket + 1 == h.buckets.size) = false := by simpa using hc
+              simp only [this, hc, Bool.false_eq_true, if_false]
+          · split <;> rfl
+          · split <;> rfl
+          · split <;> rfl
+          · split <;> rfl
+        have hbk1 : (if (bucket + 1 == 2 ^ it.B) = true then 0 else bucket + 1) =
+            (if bucket + 1 = h.buckets.size then 0 else bucket + 1) := by
+          rw [h2B]
+          by_cases hc : bucket + 1 = h.buckets.size
+          · simp only [hc, beq_self_eq_true, if_true]
+          · have : (bucket + 1 == h.buckets.size) = false := by simpa using hc
+            simp only [this, hc, Bool.false_eq_true, if_false]
+        have e1 : (if (bucket + 1 == 2 ^ it.B) = true then ((0 : Nat), { it with wrapped := true }) else (bucket + 1, it)).snd
+            = it1 := by rw [hit1]; split <;> rfl
+        have e2 : (if (bucket + 1 == 2 ^ it.B) = true then ((0 : Nat), { it with wrapped := true }) else (bucket + 1, it)).fst
+            = (if bucket + 1 = h.buckets.size then 0 else bucket + 1) := by rw [← hbk1]; split <;> rfl
+        rw [e1, e2]
+        -- invariants of the new local state
+        have hbk1lt : (if bucket + 1 = h.buckets.size then 0 else bucket + 1) < h.buckets.size := by
+          have := hp.bkt
+          split <;> omega
+        have hp1 : PosOK h it1 (if bucket + 1 = h.buckets.size then 0 else bucket + 1)
+            (some { gen := it.gen, idx := bucket, pos := 0 }) 0 := by
+          refine ⟨hB1.trans hp.B, hg1.trans hp.gen, by rw [hst1]; exact hp.start, by rw [hoff1]; exact hp.off, hbk1lt,
+            ?_, ?_, by omega⟩
+          · intro hwr
+            rw [hw1] at hwr
+            rw [hst1]
+            by_cases hc : bucket + 1 = h.buckets.size
+            · simp only [hc, if_true]; omega
+            · simp only [hc, if_false] at hwr ⊢
+              have := hp.wr hwr
+              rcases Nat.lt_or_eq_of_le this with hlt | heq
+              · omega
+              · exact absurd ⟨heq, hwr⟩ hne
+          · intro br hbr
+            injection hbr with hbr
+            subst hbr
+            exact ⟨hp.gen, hp.bkt, by show 0 < (h.buckets.getD bucket []).length / 8; omega⟩
+        have hcosts : costs (restChains h.buckets.toList it.startBucket bucket it.wrapped) =
+            ((h.buckets.getD bucket []).length / 8 + 1) +
+              costs (restChains h.buckets.toList it.startBucket (if bucket + 1 = h.buckets.size then 0 else bucket + 1)
+                it1.wrapped) := by
+          rw [hstep, hw1, hLb]
+          simp [costs]
+        have hs1 : stepsOf h it1.startBucket it1.wrapped (if bucket + 1 = h.buckets.size then 0 else bucket + 1)
+            (some { gen := it.gen, idx := bucket, pos := 0 }) ≤ fuel := by
+          unfold stepsOf at hs ⊢
+          rw [hst1]
+          simp only at hs ⊢
+          rw [hcosts] at hs
+          omega
+        have hrem : remOf h it.offset it.startBucket it.wrapped bucket none i =
+            remOf h it1.offset it1.startBucket it1.wrapped (if bucket + 1 = h.buckets.size then 0 else bucket + 1)
+              (some { gen := it.gen, idx := bucket, pos := 0 }) 0 := by
+          unfold remOf
+          simp only [List.nil_append, hoff1, hst1]
+          rw [hstep, hw1, hLb, List.flatMap_cons]
+          congr 1
+          unfold chainYield
+          obtain ⟨m, hm⟩ : ∃ m, (h.buckets.getD bucket []).length / 8 = m + 1 := ⟨_, (Nat.succ_pred_eq_of_pos hlen8).symm⟩
+          rw [hm, cy_succ]
+          simp
+        obtain ⟨it', hrun, hres⟩ := ih it1 _ _ 0 hp1 hs1
+        refine ⟨it', hrun, ?_⟩
+        have hsteps_le : stepsOf h it1.startBucket it1.wrapped (if bucket + 1 = h.buckets.size then 0 else bucket + 1)
+            (some { gen := it.gen, idx := bucket, pos := 0 }) ≤ stepsOf h it.startBucket it.wrapped bucket none := by
+          unfold stepsOf
+          rw [hst1]
+          simp only
+          rw [hcosts]
+          omega
+        rcases hres with ⟨hk, hr⟩ | ⟨k, v, hk, hv, hcb, hsb, hof, hpos, hr, hst⟩
+        · left; exact ⟨hk, by rw [hrem]; exact hr⟩
+        · right
+          refine ⟨k, v, hk, hv, hcb, hsb.trans hst1, hof.trans hoff1, hpos, ?_, ?_⟩
+          · rw [hrem, hr, hoff1, hst1]
+          · rw [hst1] at hst hsteps_le
+            exact Nat.le_trans hst hsteps_le
+    | some br =>
+      obtain ⟨hbg, hbi, hbp⟩ := hp.bref br rfl
+      obtain ⟨hba, hN, hl⟩ := bucketAt_pos hw hbg hbi hbp
+      simp only [hba]
+      have hi8 := hp.i
+      have hidx : 8 - (8 - i) = i := by omega
+      have hl8 := (hw.newOK br.idx hbi).2.2.2.2
+      rw [← getD_eq hbi] at hl8
+      rcases iterScan_byf (o := o) (h := h) (it := it) hN hl bucketCnt (8 - i) (by omega)
+          (by simp [bucketCnt]) with ⟨k, v, d', hd', hsc, hby⟩ | ⟨hsc, hby⟩
+      · -- a filled cell: yield it
+        rw [hidx] at hsc
+        simp only [hsc, bind, Except.bind, pure, Except.pure]
+        refine ⟨_, rfl, Or.inr ⟨k, v, rfl, rfl, rfl, rfl, rfl, ?_, ?_, Nat.le_refl _⟩⟩
+        · exact ⟨hp.B, hp.gen, hp.start, hp.off, hp.bkt, hp.wr, hp.bref, by show 8 - d' ≤ 8; omega⟩
+        · unfold remOf
+          simp only
+          have : 8 - (8 - d') = d' := by omega
+          rw [hby, this]
+          simp
+      · -- the bucket is exhausted: follow the overflow link or leave the chain
+        rw [hidx] at hsc
+        simp only [hsc, bind, Except.bind]
+        by_cases hov : (h.buckets.getD br.idx []).length > (br.pos + 1) * bucketCnt
+        · simp only [hov, decide_true, if_true]
+          have hp1 : PosOK h it bucket (some { br with pos := br.pos + 1 }) 0 := by
+            refine ⟨hp.B, hp.gen, hp.start, hp.off, hp.bkt, hp.wr, ?_, by omega⟩
+            intro br' hbr'
+            injection hbr' with hbr'
+            subst hbr'
+            refine ⟨hbg, hbi, ?_⟩
+            show br.pos + 1 < (h.buckets.getD br.idx []).length / 8
+            have := hl8.2
+            simp only [bucketCnt] at hov
+            omega
+          obtain ⟨m, hm⟩ : ∃ m, (h.buckets.getD br.idx []).length / 8 - br.pos - 1 = m + 1 := by
+            have := hl8.2
+            simp only [bucketCnt] at hov
+            exact ⟨(h.buckets.getD br.idx []).length / 8 - br.pos - 2, by omega⟩
+          have hs1 : stepsOf h it.startBucket it.wrapped bucket (some { br with pos := br.pos + 1 }) ≤ fuel := by
+            unfold stepsOf at hs ⊢
+            simp only at hs ⊢
+            omega
+          have hrem : remOf h it.offset it.startBucket it.wrapped bucket (some br) i =
+              remOf h it.offset it.startBucket it.wrapped bucket (some { br with pos := br.pos + 1 }) 0 := by
+            unfold remOf
+            simp only
+            rw [hby, hm, cy_succ]
+            have : (h.buckets.getD br.idx []).length / 8 - (br.pos + 1) - 1 = m := by omega
+            rw [this]
+            simp
+          obtain ⟨it', hrun, hres⟩ := ih it bucket _ 0 hp1 hs1
+          refine ⟨it', hrun, ?_⟩
+          have hle : stepsOf h it.startBucket it.wrapped bucket (some { br with pos := br.pos + 1 }) ≤
+              stepsOf h it.startBucket it.wrapped bucket (some br) := by
+            unfold stepsOf
+            simp only
+            omega
+          rcases hres with ⟨hk, hr⟩ | ⟨k, v, hk, hv, hcb, hsb, hof, hpos, hr, hst⟩
+          · left; exact ⟨hk, by rw [hrem]; exact hr⟩
+          · right; exact ⟨k, v, hk, hv, hcb, hsb, hof, hpos, by rw [hrem, hr], Nat.le_trans hst hle⟩
+        · simp only [hov, decide_false, Bool.false_eq_true, if_false]
+          have hp1 : PosOK h it bucket none 0 :=
+            ⟨hp.B, hp.gen, hp.start, hp.off, hp.bkt, hp.wr, (fun _ e => by cases e), by omega⟩
+          have hlast : (h.buckets.getD br.idx []).length / 8 - br.pos - 1 = 0 := by
+            have := hl8.2
+            simp only [bucketCnt] at hov
+            omega
+          have hs1 : stepsOf h it.startBucket it.wrapped bucket none ≤ fuel := by
+            unfold stepsOf at hs ⊢
+            simp only at hs ⊢
+            omega
+          have hrem : remOf h it.offset it.startBucket it.wrapped bucket (some br) i =
+              remOf h it.offset it.startBucket it.wrapped bucket none 0 := by
+            unfold remOf
+            simp only
+            rw [hby, hlast]
+            simp [cy]
+          obtain ⟨it', hrun, hres⟩ := ih it bucket none 0 hp1 hs1
+          refine ⟨it', hrun, ?_⟩
+          have hle : stepsOf h it.startBucket it.wrapped bucket none ≤
+              stepsOf h it.startBucket it.wrapped bucket (some br) := by
+            unfold stepsOf
+            simp only
+            omega
+          rcases hres with ⟨hk, hr⟩ | ⟨k, v, hk, hv, hcb, hsb, hof, hpos, hr, hst⟩
+          · left; exact ⟨hk, by rw [hrem]; exact hr⟩
+          · right; exact ⟨k, v, hk, hv, hcb, hsb, hof, hpos, by rw [hrem, hr], Nat.le_trans hst hle⟩
+
+
+omit [Inhabited K] [Inhabited V] in
+theorem costs_append (a b : List (Chain K V)) : costs (a ++ b) = costs a + costs b := by
+  simp [costs]
+
+omit [Inhabited K] [Inhabited V] in
+theorem costs_take_le (L : List (Chain K V)) (n : Nat) : costs (L.take n) ≤ costs L := by
+  have := costs_append (L.take n) (L.drop n)
+  rw [List.take_append_drop] at this
+  omega
+
+omit [Inhabited K] [Inhabited V] in
+theorem costs_drop_le (L : List (Chain K V)) (n : Nat) : costs (L.drop n) ≤ costs L := by
+  have := costs_append (L.take n) (L.drop n)
+  rw [List.take_append_drop] at this
+  omega
+
+omit [Inhabited K] [Inhabited V] in
+theorem cost_mem_le {L : List (Chain K V)} {c : Chain K V} (hc : c ∈ L) : c.length / 8 + 1 ≤ costs L := by
+  obtain ⟨s, t, rfl⟩ := List.append_of_mem hc
+  simp [costs]
+  omega
+
+omit [Inhabited K] [Inhabited V] in
+theorem restChains_costs_le (L : List (Chain K V)) (start bucket : Nat) (wrapped : Bool) :
+    costs (restChains L start bucket wrapped) ≤ 2 * costs L := by
+  unfold restChains
+  split
+  · have := costs_drop_le (L.take start) bucket
+    have := costs_take_le L start
+    omega
+  · rw [costs_append]
+    have := costs_drop_le L bucket
+    have := costs_take_le L start
+    omega
+
+omit [Inhabited K] [Inhabited V] in
+/-- the fuel of `mapiternext` covers the walk -/
+theorem iterFuel_ge {h : HMap K V} {it : Iter K V} {bucket : Nat} {b : Option BRef} {i : Nat}
+    (hp : PosOK h it bucket b i) : stepsOf h it.startBucket it.wrapped bucket b ≤ h.iterFuel it := by
+  have htc : totalCells h.buckets = costs h.buckets.toList := rfl
+  have harr : h.arrayOf it.gen = some h.buckets := by simp [HMap.arrayOf, hp.gen]
+  have hr := restChains_costs_le h.buckets.toList it.startBucket bucket it.wrapped
+  unfold HMap.iterFuel stepsOf
+  rw [harr, htc]
+  simp only [Option.map_some, Option.getD_some, htc]
+  cases b with
+  | none => simp only; omega
+  | some br =>
+    obtain ⟨_, hbi, _⟩ := hp.bref br rfl
+    have hmem : h.buckets.getD br.idx [] ∈ h.buckets.toList := by
+      rw [getD_eq hbi]; simp
+    have := cost_mem_le hmem
+    simp only
+    omega
+
+/-- `mapiternext` on a table that is not growing, from a consistent position -/
+theorem mapiternext_walk {o : Ops K} {h : HMap K V} (hw : WF o h) (hold : h.old = none) {it : Iter K V}
+    (hp : PosOK h it it.bucket it.bptr it.i) (hcb : it.checkBucket = none) :
+    ∃ it', mapiternext o h it = .ok it' ∧
+      ((it'.key = none ∧ remOf h it.offset it.startBucket it.wrapped it.bucket it.bptr it.i = []) ∨
+       (∃ k v, it'.key = some k ∧ it'.elem = some v ∧ it'.checkBucket = none ∧
+          it'.startBucket = it.startBucket ∧ it'.offset = it.offset ∧
+          PosOK h it' it'.bucket it'.bptr it'.i ∧
+          remOf h it.offset it.startBucket it.wrapped it.bucket it.bptr it.i =
+            (k, v) :: remOf h it.offset it.startBucket it'.wrapped it'.bucket it'.bptr it'.i)) := by
+  unfold mapiternext
+  rw [hcb]
+  obtain ⟨it', hrun, hres⟩ := iterLoop_walk hw hold (h.iterFuel it) it it.bucket it.bptr it.i hp (iterFuel_ge hp)
+  refine ⟨it', hrun, ?_⟩
+  rcases hres with hl | ⟨k, v, a1, a2, a3, a4, a5, a6, a7, _⟩
+  · exact Or.inl hl
+  · exact Or.inr ⟨k, v, a1, a2, a3, a4, a5, a6, a7⟩
+
+/-- repeated `mapiternext` until the loop ends, collecting what is yielded (the table is not touched) -/
+def drainIter (o : Ops K) (h : HMap K V) : Nat → Iter K V → Except Err (AList K V)
+  | 0, _ => .error .loop
+  | n + 1, it =>
+    match mapiternext o h it with
+    | .error e => .error e
+    | .ok it' =>
+      match it'.key, it'.elem with
+      | some k, some v =>
+        match drainIter o h n it' with
+        | .error e => .error e
+        | .ok ys => .ok ((k, v) :: ys)
+      | _, _ => .ok []
+
+theorem drainIter_spec {o : Ops K} {h : HMap K V} (hw : WF o h) (hold : h.old = none) :
+    ∀ (n : Nat) (it : Iter K V), PosOK h it it.bucket it.bptr it.i → it.checkBucket = none →
+      (remOf h it.offset it.startBucket it.wrapped it.bucket it.bptr it.i).length < n →
+      drainIter o h n it = .ok (remOf h it.offset it.startBucket it.wrapped it.bucket it.bptr it.i) := by
+  intro n
+  induction n with
+  | zero => intro it _ _ hl; omega
+  | succ n ih =>
+    intro it hp hcb hl
+    obtain ⟨it', hrun, hres⟩ := mapiternext_walk hw hold hp hcb
+    simp only [drainIter, hrun]
+    rcases hres with ⟨hk, hr⟩ | ⟨k, v, hk, hv, hcb', hsb, hof, hp', hr⟩
+    · simp only [hk]
+      rw [hr]
+    · simp only [hk, hv]
+      rw [hr] at hl ⊢
+      have := ih it' hp' hcb' (by rw [hof, hsb]; simpa using hl)
+      rw [hof, hsb] at this
+      rw [this]
+
+
+/-- `for k, v := range m` over a table nobody touches: `mapiterinit`, then `mapiternext` until the loop ends
+    (at most `n` further steps); the entries in the order they are produced -/
+def iterAll (o : Ops K) (h : HMap K V) (n : Nat) : Except Err (AList K V) :=
+  match mapiterinit o h with
+  | .error e => .error e
+  | .ok (it, h') =>
+    match it.key, it.elem with
+    | some k, some v =>
+      match drainIter o h' n it with
+      | .error e => .error e
+      | .ok ys => .ok ((k, v) :: ys)
+    | _, _ => .ok []
+
+omit [Inhabited K] [Inhabited V] in
+theorem flatMap_perm {α β : Type} {l : List α} {f g : α → List β} (hfg : ∀ a ∈ l, (f a).Perm (g a)) :
+    (l.flatMap f).Perm (l.flatMap g) := by
+  induction l with
+  | nil => exact List.Perm.refl _
+  | cons a r ih =>
+    simp only [List.flatMap_cons]
+    exact List.Perm.append (hfg a (by simp)) (ih (fun b hb => hfg b (by simp [hb])))
+
+omit [Inhabited K] [Inhabited V] in
+theorem flatMap_chainAbs (l : List (Chain K V)) : l.flatMap chainAbs = chainAbs l.flatten := by
+  induction l with
+  | nil => rfl
+  | cons a r ih => simp only [List.flatMap_cons, List.flatten_cons, chainAbs_append, ih]
+
+/-- everything a fresh walk yields is a permutation of the table's entries -/
+theorem remOf_start_perm {o : Ops K} {h : HMap K V} (hw : WF o h) (hold : h.old = none) {r start : Nat}
+    (hr : r < 8) : (remOf h r start false start none 0).Perm (abs h) := by
+  unfold remOf restChains
+  simp only [List.nil_append, Bool.false_eq_true, if_false]
+  have h1 : ((h.buckets.toList.drop start ++ h.buckets.toList.take start).flatMap (chainYield r)).Perm
+      ((h.buckets.toList.drop start ++ h.buckets.toList.take start).flatMap chainAbs) := by
+    apply flatMap_perm
+    intro c hc
+    have hmem : c ∈ h.buckets.toList := by
+      rcases List.mem_append.1 hc with hc | hc
+      · exact List.mem_of_mem_drop hc
+      · exact List.mem_of_mem_take hc
+    obtain ⟨i, hi, rfl⟩ := List.getElem_of_mem hmem
+    have hi' : i < h.buckets.size := by simpa using hi
+    have := (hw.newOK i hi').2.2.2.2.2
+    exact chainYield_perm hr (by simpa using this)
+  refine h1.trans ?_
+  rw [List.flatMap_append]
+  refine List.perm_append_comm.trans ?_
+  rw [← List.flatMap_append, List.take_append_drop, flatMap_chainAbs]
+  unfold abs allCells cellsOf
+  rw [hold]
+  simp [chainAbs_append]
+
+omit [Inhabited K] [Inhabited V] in
+theorem same_fastrand64 (h : HMap K V) : Same h (fastrand64 h).2 := by
+  unfold fastrand64
+  exact same_fastrand h
+
+/-- **Stage 5, no growth, no mutation**: a complete range loop (`mapiterinit`, then `mapiternext` until it returns
+    no key) over a table that satisfies the invariant and is not growing — whatever `fastrand` returns for the start
+    bucket and the start offset — terminates and yields every entry of the table exactly once: the list of yielded
+    pairs is a permutation of `abs h`. -/
+theorem iterAll_spec {o : Ops K} {h : HMap K V} (hw : WF o h) (hold : h.old = none) {n : Nat} (hn : h.count < n) :
+    ∃ ys, iterAll o h n = .ok ys ∧ ys.Perm (abs h) := by
+  unfold iterAll mapiterinit
+  by_cases hc : h.count = 0
+  · simp only [hc, beq_self_eq_true, if_true, pure, Except.pure]
+    refine ⟨[], rfl, ?_⟩
+    rw [abs_nil_of_count (Or.inl hw) hc]
+  · have hc' : (h.count == 0) = false := by simpa using hc
+    simp only [hc', Bool.false_eq_true, if_false]
+    -- the random start
+    obtain ⟨r, h1, hrh, hs1⟩ : ∃ (r : Nat) (h1 : HMap K V),
+        (if h.B > 31 - 3 then fastrand64 h else (h.fastrand.1.toNat, h.fastrand.2)) = (r, h1) ∧ Same h h1 := by
+      split
+      · exact ⟨_, _, rfl, same_fastrand64 h⟩
+      · exact ⟨_, _, rfl, same_fastrand h⟩
+    simp only [hrh]
+    obtain ⟨h2, hh2⟩ : ∃ h2 : HMap K V, h2 = { h1 with iterFlag := true, oldIterFlag := true } := ⟨_, rfl⟩
+    have hs2 : Same h h2 := by
+      rw [hh2]
+      exact ⟨hs1.buckets, hs1.old, hs1.B, hs1.ssg, hs1.nev, hs1.hash0, hs1.count⟩
+    have hw2 := wf_same hw hs2
+    have hold2 : h2.old = none := hs2.old.trans hold
+    have habs2 : abs h2 = abs h := abs_same hs2
+    have hsz : h2.buckets.size = 2 ^ h1.B := by rw [hs2.buckets, hw.size, hs1.B]
+    obtain ⟨it0, hit0⟩ : ∃ it0 : Iter K V, it0 =
+        { active := true, B := h1.B, gen := h1.gen, startBucket := r % 2 ^ h1.B,
+          offset := (r / 2 ^ h1.B) % bucketCnt, bucket := r % 2 ^ h1.B } := ⟨_, rfl⟩
+    have hgen : h2.gen = h1.gen := by rw [hh2]
+    have hB2 : h2.B = h1.B := by rw [hh2]
+    have hp0 : PosOK h2 it0 it0.bucket it0.bptr it0.i := by
+      rw [hit0]
+      refine ⟨hB2.symm, hgen.symm, ?_, ?_, ?_, (fun e => by cases e), (fun _ e => by cases e), by simp⟩
+      · show r % 2 ^ h1.B < h2.buckets.size
+        rw [hsz]; exact Nat.mod_lt _ (Nat.pow_pos (by omega))
+      · show (r / 2 ^ h1.B) % bucketCnt < 8
+        exact Nat.mod_lt _ (by simp [bucketCnt])
+      · show r % 2 ^ h1.B < h2.buckets.size
+        rw [hsz]; exact Nat.mod_lt _ (Nat.pow_pos (by omega))
+    obtain ⟨it', hrun, hres⟩ := mapiternext_walk (o := o) hw2 hold2 hp0 (by rw [hit0])
+    have hperm := remOf_start_perm hw2 hold2 (r := it0.offset) (start := it0.startBucket) hp0.off
+    have hstate : remOf h2 it0.offset it0.startBucket it0.wrapped it0.bucket it0.bptr it0.i =
+        remOf h2 it0.offset it0.startBucket false it0.startBucket none 0 := by rw [hit0]
+    rw [← hh2, ← hit0]
+    simp only [hrun, bind, Except.bind, pure, Except.pure]
+    rcases hres with ⟨hk, hr⟩ | ⟨k, v, hk, hv, hcb', hsb, hof, hp', hr⟩
+    · simp only [hk]
+      refine ⟨[], rfl, ?_⟩
+      rw [hstate] at hr
+      rw [hr] at hperm
+      rw [← habs2]; exact hperm
+    · simp only [hk, hv]
+      rw [hstate] at hr
+      have hlen : (remOf h2 it0.offset it0.startBucket it'.wrapped it'.bucket it'.bptr it'.i).length < n := by
+        have := hperm.length_eq
+        rw [hr, habs2, ← hw.count] at this
+        simp only [List.length_cons] at this
+        omega
+      have hd := drainIter_spec (o := o) hw2 hold2 n it' hp' hcb' (by rw [hof, hsb]; exact hlen)
+      rw [hof, hsb] at hd
+      rw [hd]
+      refine ⟨_, rfl, ?_⟩
+      rw [← hr, ← habs2]; exact hperm
+
+/-! ## range loops with deletions between the steps (no growth) -/
+
+omit [Inhabited K] [Inhabited V] in
+theorem deleteCore_gen (o : Ops K) (h : HMap K V) (hash : UInt64) (k : K) : (deleteCore o h hash k).gen = h.gen := by
+  unfold deleteCore
+  simp only
+  split
+  · rfl
+  · split <;> rfl
+
+/-- `mapdelete` on a table that is not growing keeps it that way and keeps the bucket array (same generation) -/
+theorem mapdelete_stable {o : Ops K} (ho : HashOK o) {h h' : HMap K V} (hw : WF o h) (hold : h.old = none) {k : K}
+    (e : mapdelete o h k = .ok h') : WF o h' ∧ h'.old = none ∧ h'.gen = h.gen := by
+  unfold mapdelete at e
+  have same_ok : ∀ h1 : HMap K V, Same h h1 → h1.gen = h.gen → WF o h1 ∧ h1.old = none ∧ h1.gen = h.gen :=
+    fun h1 hs hg => ⟨wf_same hw hs, hs.old.trans hold, hg⟩
+  by_cases hc : h.count = 0
+  · simp only [hc, beq_self_eq_true, if_true] at e
+    split at e
+    · -- hashMightPanic: the hasher is called for its panic only
+      cases hu : o.unhashable k with
+      | true => simp [hashKey, hu, bind, Except.bind] at e
+      | false =>
+        obtain ⟨hash, h1, hk, hs, _⟩ := hashKey_ok (s := 0) h hu
+        simp only [hk, bind, Except.bind, pure, Except.pure] at e
+        injection e with e
+        subst e
+        refine same_ok h1 hs ?_
+        unfold hashKey at hk
+        simp only [hu, Bool.false_eq_true, if_false] at hk
+        split at hk
+        · injection hk with hk; injection hk with _ hk; rw [← hk]
+        · injection hk with hk; injection hk with _ hk; rw [← hk]; rfl
+    · simp only [pure, Except.pure] at e
+      injection e with e
+      subst e
+      exact ⟨hw, hold, rfl⟩
+  · have hc' : (h.count == 0) = false := by simpa using hc
+    simp only [hc', Bool.false_eq_true, if_false] at e
+    cases hu : o.unhashable k with
+    | true => simp [hashKey, hu, bind, Except.bind] at e
+    | false =>
+      obtain ⟨hash, h1, hk, hs, hrefl⟩ := hashKey_ok (s := h.hash0) h hu
+      simp only [hk, bind, Except.bind] at e
+      have hw1 := wf_same hw hs
+      have hold1 : h1.old = none := hs.old.trans hold
+      have hg1 : h1.gen = h.gen := by
+        unfold hashKey at hk
+        simp only [hu, Bool.false_eq_true, if_false] at hk
+        split at hk
+        · injection hk with hk; injection hk with _ hk; rw [← hk]
+        · injection hk with hk; injection hk with _ hk; rw [← hk]; rfl
+      have hgrow : h1.growing = false := by simp [HMap.growing, hold1]
+      unfold deletePass at e
+      simp only [hgrow, Bool.false_eq_true, if_false, bind, Except.bind, pure, Except.pure] at e
+      injection e with e
+      subst e
+      obtain ⟨dw, _, dold⟩ := deleteCore_spec ho hw1 (hash := hash) (k := k)
+        (by unfold Home; rw [hold1]; trivial) (fun hr => by rw [hs.hash0]; exact (hrefl hr).1)
+      exact ⟨dw, dold.trans hold1, (deleteCore_gen o h1 hash k).trans hg1⟩
+
+omit [Inhabited K] [Inhabited V] in
+theorem iterCur_of_gen {h h' : HMap K V} {it : Iter K V} (hic : IterCur h it) (hg : h'.gen = h.gen) : IterCur h' it :=
+  ⟨hic.gen.trans hg.symm, hic.cb, fun br e => (hic.bptr br e).trans hg.symm⟩
+
+/-- a range loop with deletions between the iteration steps (`none` = `mapiternext`, `some k` = `delete(m, k)`);
+    every yield is recorded with the table at that moment -/
+def runDelLoop (o : Ops K) : HMap K V → Iter K V → List (Option K) → Except Err (List ((K × V) × HMap K V))
+  | _, _, [] => .ok []
+  | h, it, some k :: rest =>
+    match mapdelete o h k with
+    | .error e => .error e
+    | .ok h' => runDelLoop o h' it rest
+  | h, it, none :: rest =>
+    match mapiternext o h it with
+    | .error e => .error e
+    | .ok it' =>
+      match it'.key, it'.elem with
+      | some k, some v =>
+        match runDelLoop o h it' rest with
+        | .error e => .error e
+        | .ok ys => .ok (((k, v), h) :: ys)
+      | _, _ => .ok []
+
+/-- **Stage 5 with interleaved deletions, no growth — "no deleted entry"**: whatever keys the loop body deletes
+    between the steps, every pair the loop yields is an entry of the table at the moment it is yielded. -/
+theorem runDelLoop_yields_live {o : Ops K} (ho : HashOK o) : ∀ (steps : List (Option K)) (h : HMap K V) (it : Iter K V)
+    (ys : List ((K × V) × HMap K V)), WF o h → h.old = none → IterCur h it →
+    runDelLoop o h it steps = .ok ys → ∀ y ∈ ys, y.1 ∈ abs y.2 := by
+  intro steps
+  induction steps with
+  | nil => intro h it ys _ _ _ e; simp [runDelLoop] at e; subst e; intro y hy; cases hy
+  | cons st rest ih =>
+    intro h it ys hw hold hic e
+    cases st with
+    | some k =>
+      simp only [runDelLoop] at e
+      cases hd : mapdelete o h k with
+      | error er => rw [hd] at e; cases e
+      | ok h' =>
+        rw [hd] at e
+        obtain ⟨hw', hold', hg'⟩ := mapdelete_stable ho hw hold hd
+        exact ih h' it ys hw' hold' (iterCur_of_gen hic hg') e
+    | none =>
+      simp only [runDelLoop] at e
+      cases hn : mapiternext o h it with
+      | error er => rw [hn] at e; cases e
+      | ok it' =>
+        rw [hn] at e
+        obtain ⟨hic', hlive⟩ := mapiternext_yields_live hw hold hic hn
+        cases hk : it'.key with
+        | none => simp [hk] at e; subst e; intro y hy; cases hy
+        | some k =>
+          cases hv : it'.elem with
+          | none => simp [hk, hv] at e; subst e; intro y hy; cases hy
+          | some v =>
+            simp only [hk, hv] at e
+            cases hr : runDelLoop o h it' rest with
+            | error er => rw [hr] at e; cases e
+            | ok ys' =>
+              rw [hr] at e
+              injection e with e
+              subst e
+              intro y hy
+              rcases List.mem_cons.1 hy with rfl | hy
+              · exact hlive k v hk hv
+              · exact ih h it' ys' hw hold hic' hr y hy
+
+
+/-- `mapiterinit` on a non-empty table that is not growing: the iterator it returns walks the current array, and its
+    first entry (fetched by the `mapiternext` inside `mapiterinit`) is an entry of the table -/
+theorem mapiterinit_stable {o : Ops K} {h h' : HMap K V} {it : Iter K V} (hw : WF o h) (hold : h.old = none)
+    (hc : h.count ≠ 0) (e : mapiterinit o h = .ok (it, h')) :
+    WF o h' ∧ h'.old = none ∧ abs h' = abs h ∧ IterCur h' it ∧
+      ∀ k v, it.key = some k → it.elem = some v → (k, v) ∈ abs h' := by
+  unfold mapiterinit at e
+  have hc' : (h.count == 0) = false := by simpa using hc
+  simp only [hc', Bool.false_eq_true, if_false] at e
+  obtain ⟨r, h1, hrh, hs1⟩ : ∃ (r : Nat) (h1 : HMap K V),
+      (if h.B > 31 - 3 then fastrand64 h else (h.fastrand.1.toNat, h.fastrand.2)) = (r, h1) ∧ Same h h1 := by
+    split
+    · exact ⟨_, _, rfl, same_fastrand64 h⟩
+    · exact ⟨_, _, rfl, same_fastrand h⟩
+  simp only [hrh] at e
+  obtain ⟨h2, hh2⟩ : ∃ h2 : HMap K V, h2 = { h1 with iterFlag := true, oldIterFlag := true } := ⟨_, rfl⟩
+  have hs2 : Same h h2 := by
+    rw [hh2]
+    exact ⟨hs1.buckets, hs1.old, hs1.B, hs1.ssg, hs1.nev, hs1.hash0, hs1.count⟩
+  have hw2 := wf_same hw hs2
+  have hold2 : h2.old = none := hs2.old.trans hold
+  rw [← hh2] at e
+  have hgen : h2.gen = h1.gen := by rw [hh2]
+  obtain ⟨it0, hit0⟩ : ∃ it0 : Iter K V, it0 = { active := true, B := h1.B, gen := h1.gen, startBucket := r % 2 ^ h1.B, offset := (r / 2 ^ h1.B) % bucketCnt, bucket := r % 2 ^ h1.B } := ⟨_, rfl⟩
+  rw [← hit0] at e
+  have hic0 : IterCur h2 it0 := by
+    rw [hit0]; exact ⟨hgen.symm, rfl, fun _ e => by cases e⟩
+  cases hn : mapiternext o h2 it0 with
+  | error er => simp [hn, bind, Except.bind] at e
+  | ok it' =>
+    simp only [hn, bind, Except.bind, pure, Except.pure] at e
+    injection e with e
+    injection e with e1 e2
+    subst e1 e2
+    obtain ⟨hic, hlive⟩ := mapiternext_yields_live hw2 hold2 hic0 hn
+    exact ⟨hw2, hold2, abs_same hs2, hic, hlive⟩
+
 end LlgoVerif.HMap
